@@ -23,7 +23,7 @@ fn mode_for(role: &Role) -> CollMode {
 }
 
 /// all runs needed for the bounds rules: (run, extra seeds description)
-pub fn bounds_runs(cx: &Cx, all_payloads: bool) -> Vec<RoleRun> {
+pub fn bounds_runs(cx: &Cx, all_payloads: bool, collapse: bool) -> Vec<RoleRun> {
     let mut v = Vec::new();
     for r in &cx.roles {
         if r.variant == "_" { continue; }
@@ -32,13 +32,13 @@ pub fn bounds_runs(cx: &Cx, all_payloads: bool) -> Vec<RoleRun> {
         for p in ps {
             // at type level the helper-attribute set carries no `derive_ex` entries (built with derive_ex = false)
             let seed: Vec<(String, bool)> = vec![];
-            let mut run = run(&cx.ix, r, p.as_deref(), mode_for(r), &seed);
+            let mut run = run_opt(&cx.ix, r, p.as_deref(), mode_for(r), &seed, collapse);
             // invariant ES-type-items-empty: drop paths that assume type-level `items` entries
             run.paths.retain(|p| !p.cond.iter().any(|(a, b)| *b && a.starts_with("hattrs.items[")));
             v.push(run);
             // enum roles in unrolled mode also with a single variant (the only-variant rule of Default)
             if r.item_kind == "enum" && r.variant == "Default" {
-                let mut run1 = run_with(&cx.ix, r, None, CollMode::Unrolled(1));
+                let mut run1 = run_opt(&cx.ix, r, None, CollMode::Unrolled(1), &[], collapse);
                 run1.paths.retain(|p| !p.cond.iter().any(|(a, b)| *b && a.starts_with("hattrs.items[")));
                 v.push(run1);
             }
@@ -193,9 +193,10 @@ pub fn check_run(cx: &Cx, run: &RoleRun, am: &crate::cmp::AttrMap, entry: &(Stri
                 continue;
             };
             if !visited {
-                if !seg.is_empty() {
-                    let any_default = seg.iter().any(|x| x.1);
-                    fail(if any_default { "ES-use-bound" } else { "ES-bounds-trace" }, format!("{:?}:unused-field-pushed", kind), format!("bounds are pushed for field {f}, which the derived code does not use ({})", seg.iter().map(|x| x.0.clone()).collect::<Vec<_>>().join(", ")));
+                // explicit bound(...) levels of a field the derived code does not use: whether they are "reached" is
+                // not documented, so only the default bound on the field type is judged (C03)
+                if seg.iter().any(|x| x.1) {
+                    fail("ES-use-bound", format!("{:?}:unused-field-pushed", kind), format!("the default bound is pushed for field {f}, which the derived code does not use ({})", seg.iter().map(|x| x.0.clone()).collect::<Vec<_>>().join(", ")));
                 }
                 continue;
             }
@@ -208,9 +209,11 @@ pub fn check_run(cx: &Cx, run: &RoleRun, am: &crate::cmp::AttrMap, entry: &(Stri
                     let n_default = seg.iter().filter(|x| x.1).count();
                     let want = if u == Some(true) && used { 1 } else { 0 };
                     if u.is_none() && used && n_default > 0 {
-                        fail("ES-use-bound", format!("{:?}:default-unguarded", kind), format!("field {f}: the default bound is pushed without consulting whether an explicit level stopped resolution"));
+                        fail("ES-default-after-stop", format!("{:?}:default-unguarded", kind), format!("field {f}: the default bound is pushed without consulting whether an explicit level stopped resolution"));
                     } else if n_default != want && !(u.is_none() && n_default == 0) {
-                        fail("ES-use-bound", format!("{:?}:default-bound", kind), format!("field {f}: the default bound on the field type is pushed {n_default} time(s), expected {want} (resolution reached the end: {u:?}, field used through the trait: {used})"));
+                        // pushed although an explicit level stopped: C04; missing / superfluous with respect to use: C03
+                        let rule = if u == Some(false) && n_default > 0 { "ES-default-after-stop" } else { "ES-use-bound" };
+                        fail(rule, format!("{:?}:default-bound", kind), format!("field {f}: the default bound on the field type is pushed {n_default} time(s), expected {want} (resolution reached the end: {u:?}, field used through the trait: {used})"));
                     } else if n_default == 1 && seg.last().map(|x| x.1) != Some(true) {
                         fail("ES-bounds-trace", format!("{:?}:default-not-last", kind), format!("field {f}: the default bound is pushed before an explicit level"));
                     }
@@ -230,10 +233,16 @@ fn run_bounds(cx: &Cx, rep: &mut Report, rules: &[&str]) {
         Err(e) => { rep.fail("unanalysable", "DeriveEntry", "entry-bounds-fields", &e, "item_type.rs", json!({})); return; }
     };
     rep.analysed.insert("DeriveEntry per-trait / shared bounds fields".into(), json!([entry.0, entry.1]));
-    let runs = bounds_runs(cx, cx.tier == "thorough");
+    let collapse = !rules.contains(&"ES-bounds-trace");
+    let runs = bounds_runs(cx, cx.tier == "thorough", collapse);
     let mut total_paths = 0;
     for run in &runs {
-        rep.unanalysable(&run.label(), &run.unsupported);
+        for u in &run.unsupported {
+            if (u.contains("loop-carried write") || u.contains("loop-carried bounds flag")) && rules.contains(&"ES-bounds-trace") {
+                rep.fail("ES-bounds-scope", &run.label(), "loop-carried-flag", &format!("a flag survives from one field / variant iteration to the next, so a `bound()` stop on one element silences the following ones: {u}"), &run.site(), json!({}));
+            }
+        }
+        rep.unanalysable(&run.label(), &run.unsupported.iter().filter(|u| !((u.contains("loop-carried write") || u.contains("loop-carried bounds flag")) && rules.contains(&"ES-bounds-trace"))).cloned().collect::<Vec<_>>());
         let (fs, checked) = check_run(cx, run, &am, &entry);
         total_paths += checked;
         let mut failed_rules = std::collections::BTreeSet::new();
@@ -254,12 +263,12 @@ fn run_bounds(cx: &Cx, rep: &mut Report, rules: &[&str]) {
 
 pub fn c04(cx: &Cx) -> i32 {
     let mut rep = cx.report("C04");
-    run_bounds(cx, &mut rep, &["ES-bounds-trace"]);
+    run_bounds(cx, &mut rep, &["ES-bounds-trace", "ES-default-after-stop"]);
     crate::misc::bound_parse_rule(cx, &mut rep);
     crate::misc::wcb_rule(cx, &mut rep);
     rep.assumptions = vec![
         "the type-level helper-attribute set carries no derive_ex entries (it is built with derive_ex = false; those entries are the derive entries themselves)".into(),
-        "an ignored / unused field does not reach its field-level bound(...) (code behaviour, not documented)".into(),
+        "whether an ignored / unused field reaches its field-level bound(...) is not documented and not judged".into(),
     ];
     rep.finish("other", "static analysis: for every builder role and every path, the ordered trace of where-clause pushes (classified by the declared types of the pushed places, not by names) equals the documented resolution: type level (helper chain most specific first, per-trait, shared), then per variant, then per field, each level reached only while all earlier levels of its own scope chain continue; plus the decision model of Bounds::from / push (absent, bound(), `..`) and of the where-clause builder", "rule instances = (role, successful path)")
 }
@@ -269,7 +278,9 @@ pub fn c03(cx: &Cx) -> i32 {
     run_bounds(cx, &mut rep, &["ES-use-bound"]);
     crate::misc::wcb_rule(cx, &mut rep);
     crate::misc::mentions_param_rule(cx, &mut rep);
+    crate::props_hyg::where_rules(cx, &mut rep);
     rep.assumptions = vec![
+        "analysed under the property's own hypothesis `no bound(...) given`: every explicit level continues (the interplay with explicit levels is C04)".into(),
         "field types written through macros are invisible to the parameter-mention visitor (not claimed)".into(),
         "which fields the generated body uses through the trait is decided per trait by the C01/C06/C07/C08/C10/C11 rules".into(),
     ];
